@@ -20,36 +20,43 @@ func ParseStratumMessage(raw []byte) (interfaces.MiningMessageGeneric, error) {
 		return nil, lib.WrapError(ErrStratumV1Unmarshal, err)
 	}
 
+	var (
+		typed interface {
+			interfaces.MiningMessageGeneric
+			Validate() error
+		}
+	)
+
 	switch msg.Method {
 
 	// client messages
 	case MethodMiningSubscribe:
-		return ParseMiningSubscribe(raw)
+		typed, err = ParseMiningSubscribe(raw)
 
 	case MethodMiningAuthorize:
-		return ParseMiningAuthorize(raw)
+		typed, err = ParseMiningAuthorize(raw)
 
 	case MethodMiningSubmit:
-		return ParseMiningSubmit(raw)
+		typed, err = ParseMiningSubmit(raw)
 
 	case MethodMiningMultiVersion:
-		return ParseMiningMultiVersion(raw)
+		typed, err = ParseMiningMultiVersion(raw)
 
 	case MethodMiningConfigure:
-		return ParseMiningConfigure(raw)
+		typed, err = ParseMiningConfigure(raw)
 
 	// server messages
 	case MethodMiningNotify:
-		return ParseMiningNotify(raw)
+		typed, err = ParseMiningNotify(raw)
 
 	case MethodMiningSetDifficulty:
-		return ParseMiningSetDifficulty(raw)
+		typed, err = ParseMiningSetDifficulty(raw)
 
 	case MethodMiningSetVersionMask:
-		return ParseMiningSetVersionMask(raw)
+		typed, err = ParseMiningSetVersionMask(raw)
 
 	case MethodMiningSetExtranonce:
-		return ParseMiningSetExtranonce(raw)
+		typed, err = ParseMiningSetExtranonce(raw)
 
 	default:
 		if msg.Result != nil {
@@ -58,4 +65,13 @@ func ParseStratumMessage(raw []byte) (interfaces.MiningMessageGeneric, error) {
 
 		return nil, ErrStratumV1Unknown
 	}
+
+	if err != nil {
+		return nil, err
+	}
+	// a message of the wrong shape would fault later, in a getter or in the share validator
+	if err := typed.Validate(); err != nil {
+		return nil, err
+	}
+	return typed, nil
 }
